@@ -79,7 +79,14 @@ impl C17 {
             add(&d, None);
         }
         add(&Dims::new(), None);
-        let xs: Vec<X> = by.into_values().collect();
+        let mut xs: Vec<X> = by.into_values().collect();
+        // exponents range over -3..3 *including 0*: a factor raised to the power 0 contributes nothing
+        for x in xs.iter_mut() {
+            let other = base.iter().find(|b| !x.dims.contains_key(*b)).unwrap_or(&base[0]);
+            let p = base_product(&x.dims);
+            x.spellings.push(format!("{} {}^0", p, regdump::q(other)));
+            x.spellings.push(format!("({})^0 {}", p, p));
+        }
         let mut fams = Fams::default();
         fams.add("units for X", vec![xs.len() as u64]);
         fams.add("factorize X", vec![xs.len() as u64]);
@@ -108,7 +115,7 @@ impl Space for C17 {
         Meta {
             id: "C17",
             level: "exploration",
-            rule: "every named quantity, every dimensionality occurring in the registry and every product of up to 2 (thorough 3) base units with exponents in -3..3, each written as the quantity name, as a unit of that dimensionality and as a product of base units: `units for X` must list exactly the non-alias units of the registry dump with that exponent vector (plus the base unit itself for a single base unit to the first power), each once, under its own category's display name, with non-empty non-repeated groups, identically for all spellings; `factorize X` (complexity score bounded) must return only products of quantities whose exponent vectors multiply out to X's, no duplicates, identically for all spellings. Non-trivial = all; distinct by (command, dimensionality)".into(),
+            rule: "every named quantity, every dimensionality occurring in the registry and every product of up to 2 (thorough 3) base units with exponents in -3..3, each written as the quantity name, as a unit of that dimensionality, as a product of base units, and as that product with an extra factor raised to the power 0 (`p b^0`, `(p)^0 p`): `units for X` must list exactly the non-alias units of the registry dump with that exponent vector (plus the base unit itself for a single base unit to the first power), each once, under its own category's display name, with non-empty non-repeated groups, identically for all spellings; `factorize X` (complexity score bounded) must return only products of quantities whose exponent vectors multiply out to X's, no duplicates, identically for all spellings. Non-trivial = all; distinct by (command, dimensionality)".into(),
             assumptions: vec![
                 "factorize beyond the complexity bound is exponential: not explored here (C04 records it); a timeout inside the bound is recorded, not judged".into(),
             ],
